@@ -49,6 +49,8 @@ ALLOWED_AXIOMS = {
     "Eqdep.Eq_rect_eq.eq_rect_eq", "eq_rect_eq", "JMeq_eq", "JMeq.JMeq_eq",
     "proof_irrelevance", "ProofIrrelevance.proof_irrelevance",
     "classic", "Classical_Prop.classic",
+    # Coq Reals (needed by anything stated through Flocq / Rcompare): C10_quanttime_roundtrip_generic
+    "ClassicalDedekindReals.sig_forall_dec", "ClassicalDedekindReals.sig_not_dec",
 }
 PRIMITIVE_PREFIXES = ("PrimFloat.", "Uint63.", "PrimInt63.", "FloatOps.", "PArray.", "Sint63.",
                       "FloatAxioms.", "SpecFloat.", "Float64.", "float", "int")
@@ -108,6 +110,7 @@ class Ctx:
 
     def cleanup(self):
         shutil.rmtree(self.scratch, ignore_errors=True)
+        shutil.rmtree(os.path.join(COQ, "ocaml", "build", f"{self.prop_id}.{os.getpid()}"), ignore_errors=True)
 
     def run_driver(self, lines, timeout=3000):
         return run_driver(self.driver, lines, timeout=timeout)
@@ -162,17 +165,26 @@ def _run(cmd, cwd=None, timeout=1800, env=None, input=None):
 
 
 class _Lock:
+    """Cross-process lock on coq/.lock, re-entrant within one process."""
+    depth = 0
+    fh = None
+
     def __enter__(self):
         import fcntl
-        os.makedirs(COQ, exist_ok=True)
-        self.f = open(os.path.join(COQ, ".lock"), "w")
-        fcntl.flock(self.f, fcntl.LOCK_EX)
+        if _Lock.depth == 0:
+            os.makedirs(COQ, exist_ok=True)
+            _Lock.fh = open(os.path.join(COQ, ".lock"), "w")
+            fcntl.flock(_Lock.fh, fcntl.LOCK_EX)
+        _Lock.depth += 1
         return self
 
     def __exit__(self, *a):
         import fcntl
-        fcntl.flock(self.f, fcntl.LOCK_UN)
-        self.f.close()
+        _Lock.depth -= 1
+        if _Lock.depth == 0:
+            fcntl.flock(_Lock.fh, fcntl.LOCK_UN)
+            _Lock.fh.close()
+            _Lock.fh = None
 
 
 def coq_sources() -> List[str]:
@@ -295,8 +307,9 @@ def print_assumptions(vfile: str, scratch: str) -> (bool, Dict[str, List[str]], 
     src = strip_comments(open(os.path.join(COQ, vfile)).read())
     names = re.findall(r"Print\s+Assumptions\s+([A-Za-z0-9_'.]+)\s*\.", src)
     out_vo = os.path.join(scratch, os.path.basename(vfile)[:-2] + ".vo")
-    rc, out = _run(["coqc", "-Q", "theories", "HV", "-Q", "gen", "HVgen", "-w", "none", "-o", out_vo, vfile],
-                   cwd=COQ, timeout=1800)
+    with _Lock():
+        rc, out = _run(["coqc", "-Q", "theories", "HV", "-Q", "gen", "HVgen", "-w", "none", "-o", out_vo, vfile],
+                       cwd=COQ, timeout=1800)
     if rc != 0:
         return False, {}, out
     blocks = re.split(r"(?m)^(?=Closed under the global context|Axioms:)", out)
@@ -346,7 +359,7 @@ let int_of_z (x:z) : int = match x with Z0 -> 0 | Zpos p -> int_of_pos p | Zneg 
 
 def build_driver(prop_id: str, extract_v: str, driver_ml: str, with_z=False) -> (bool, str, str):
     """Compile Extract/ExCnn.v (which writes <module>.ml into the build dir) and the driver."""
-    bdir = os.path.join(COQ, "ocaml", "build", prop_id)
+    bdir = os.path.join(COQ, "ocaml", "build", f"{prop_id}.{os.getpid()}")
     with _Lock():
         shutil.rmtree(bdir, ignore_errors=True)
         os.makedirs(bdir)
@@ -518,6 +531,8 @@ def _do_check(mod, ctx: Ctx) -> int:
 
     # 1. generated data
     gen_obls = []
+    _gl = _Lock()
+    _gl.__enter__()     # generated files are shared between properties: regenerate and build in one critical section
     if hasattr(mod, "generate"):
         try:
             gen_obls = mod.generate(ctx) or []
@@ -527,7 +542,10 @@ def _do_check(mod, ctx: Ctx) -> int:
 
     # 2. coq build
     targets = [mod.COQ_PROPS] + list(getattr(mod, "COQ_EXTRA", []))
-    ok, log = coq_build(targets)
+    try:
+        ok, log = coq_build(targets)
+    finally:
+        _gl.__exit__()
     ctx.coq_log = log
     errs = parse_coq_errors(log) if not ok else []
     thms = count_theorems(mod.COQ_PROPS)
